@@ -30,10 +30,80 @@ func (c *Ctx) writeOf(in ssa.Instruction) (pktT string, id ssa.Value, ok bool) {
 	if pt == "pack" {
 		return "pack", nil, true
 	}
-	if al, isAl := c.Resolve(pcall.Call.Args[0]).(*ssa.Alloc); isAl {
-		return pt, c.storedField(al, "ID"), true
+	return pt, c.packetField(pcall.Call.Args[0], "ID"), true
+}
+
+// srvEff is one hand-over of a message to the registered handler: a direct Handler.Serve invoke, or a call of a helper
+// that loads the handler and serves its parameter (e.g. an extracted `deliver(m)`).
+type srvEff struct {
+	Call    *ssa.Call
+	Arg     ssa.Value
+	Handler ssa.Value     // the handler value tested for nil at the call site; nil when the test is inside the helper
+	Helper  *ssa.Function // non-nil for a helper call
+	Inner   *ssa.Call     // the Serve invoke inside the helper
+}
+
+// deliverSummary: g serves its k-th parameter exactly once on every path, except when the handler it loaded is nil.
+func (c *Ctx) deliverSummary(g *ssa.Function) (int, *ssa.Call, bool) {
+	if g.Blocks == nil {
+		return 0, nil, false
 	}
-	return pt, nil, true
+	var invs []*ssa.Call
+	eachInstr(g, func(in ssa.Instruction) {
+		if k, ok := in.(*ssa.Call); ok && k.Call.IsInvoke() && k.Call.Method.Name() == "Serve" && len(k.Call.Args) == 1 {
+			invs = append(invs, k)
+		}
+	})
+	if len(invs) != 1 {
+		return 0, nil, false
+	}
+	inv := invs[0]
+	idx := -1
+	for i, p := range g.Params {
+		if c.Resolve(inv.Call.Args[0]) == ssa.Value(p) {
+			idx = i
+		}
+	}
+	if idx < 0 {
+		return 0, nil, false
+	}
+	exempt := func(b *ssa.BasicBlock, k int) bool {
+		for _, e := range nilEdges(g, inv.Call.Value) {
+			if e.B == b && e.K == k {
+				return true
+			}
+		}
+		return false
+	}
+	if _, ok := c.mustFollowFrom(g, g.Blocks[0].Instrs[0], func(x ssa.Instruction) bool { return x == ssa.Instruction(inv) }, exempt); !ok {
+		return 0, nil, false
+	}
+	if _, again := CanReach(g, inv, func(x ssa.Instruction) bool { return x == ssa.Instruction(inv) }, PathQ{}); again {
+		return 0, nil, false
+	}
+	return idx, inv, true
+}
+
+func (c *Ctx) serveEff(in ssa.Instruction) (*srvEff, bool) {
+	k, ok := in.(*ssa.Call)
+	if !ok {
+		return nil, false
+	}
+	if k.Call.IsInvoke() {
+		if k.Call.Method.Name() != "Serve" || len(k.Call.Args) != 1 {
+			return nil, false
+		}
+		return &srvEff{Call: k, Arg: k.Call.Args[0], Handler: k.Call.Value}, true
+	}
+	g := c.StaticCalleeOf(&k.Call)
+	if g == nil || g.Pkg != c.Pkg {
+		return nil, false
+	}
+	idx, inner, ok := c.deliverSummary(g)
+	if !ok || idx >= len(k.Call.Args) {
+		return nil, false
+	}
+	return &srvEff{Call: k, Arg: k.Call.Args[idx], Helper: g, Inner: inner}, true
 }
 
 func isServeInvoke(in ssa.Instruction) (*ssa.Call, bool) {
@@ -136,11 +206,11 @@ func checkC04(r *Run) {
 		key := "serve/PUBLISH[QoS" + string(rune('0'+q)) + "]"
 		pq := PathQ{BlockEdge: qf(q), BlockInstr: stopAtRead}
 		region := ReachableFromBlock(f, start, pq)
-		var serves []*ssa.Call
+		var serves []*srvEff
 		var writes []ssa.Instruction
 		var stores []*ssa.MapUpdate
 		for in := range region {
-			if k, ok := isServeInvoke(in); ok {
+			if k, ok := c.serveEff(in); ok {
 				serves = append(serves, k)
 			}
 			if _, _, ok := c.writeOf(in); ok {
@@ -180,27 +250,30 @@ func checkC04(r *Run) {
 				bad(pub.Parse.Pos(), "a QoS %d PUBLISH is never handed to the handler", q)
 			}
 			for _, s := range serves {
-				if len(s.Call.Args) != 1 || !isParsedMsg(s.Call.Args[0]) {
-					bad(s.Pos(), "the handler receives something other than the message parsed from this packet")
+				if !isParsedMsg(s.Arg) {
+					bad(s.Call.Pos(), "the handler receives something other than the message parsed from this packet")
 				}
 				// at most once per packet
-				if _, again := CanReach(f, s, func(x ssa.Instruction) bool { _, ok := isServeInvoke(x); return ok }, pq); again {
-					bad(s.Pos(), "a QoS %d PUBLISH can be handed over twice", q)
+				if _, again := CanReach(f, s.Call, func(x ssa.Instruction) bool { _, ok := c.serveEff(x); return ok }, pq); again {
+					bad(s.Call.Pos(), "a QoS %d PUBLISH can be handed over twice", q)
 				}
 			}
 			if len(serves) == 1 {
 				s := serves[0]
 				// required unless handler == nil
 				exempt := func(b *ssa.BasicBlock, k int) bool {
-					for _, e := range nilEdges(f, s.Call.Value) {
+					if s.Handler == nil {
+						return false
+					}
+					for _, e := range nilEdges(f, s.Handler) {
 						if e.B == b && e.K == k {
 							return true
 						}
 					}
 					return false
 				}
-				if toRead(nil, func(x ssa.Instruction) bool { return x == ssa.Instruction(s) }, exempt) {
-					bad(s.Pos(), "a path processes a QoS %d PUBLISH without handing it to the registered handler", q)
+				if toRead(nil, func(x ssa.Instruction) bool { return x == ssa.Instruction(s.Call) }, exempt) {
+					bad(s.Call.Pos(), "a path processes a QoS %d PUBLISH without handing it to the registered handler", q)
 				}
 			}
 			if len(stores) > 0 {
@@ -233,7 +306,7 @@ func checkC04(r *Run) {
 				}
 				if q == 1 {
 					for _, s := range serves {
-						if _, after := CanReach(f, w, func(x ssa.Instruction) bool { return x == ssa.Instruction(s) }, pq); after {
+						if _, after := CanReach(f, w, func(x ssa.Instruction) bool { return x == ssa.Instruction(s.Call) }, pq); after {
 							bad(w.Pos(), "PUBACK can be written before the handler returned: the broker may discard the message while the application has not processed it")
 						}
 					}
@@ -242,7 +315,7 @@ func checkC04(r *Run) {
 		}
 		if q == 2 {
 			if len(serves) > 0 {
-				bad(serves[0].Pos(), "a QoS 2 PUBLISH is handed to the handler on arrival: the retransmitted PUBLISH (or the PUBREL) hands it over a second time")
+				bad(serves[0].Call.Pos(), "a QoS 2 PUBLISH is handed to the handler on arrival: the retransmitted PUBLISH (or the PUBREL) hands it over a second time")
 			}
 			if len(stores) != 1 {
 				bad(pub.Parse.Pos(), "a QoS 2 PUBLISH is stored %d times in the hold buffer (want once)", len(stores))
@@ -315,11 +388,11 @@ func checkC04(r *Run) {
 			} else {
 				hitStart := hitEdge.B.Succs[0]
 				region := ReachableFromBlock(f, hitStart, pq)
-				var serves []*ssa.Call
+				var serves []*srvEff
 				var writes []ssa.Instruction
 				var dels []ssa.Instruction
 				for in := range region {
-					if k, ok := isServeInvoke(in); ok {
+					if k, ok := c.serveEff(in); ok {
 						serves = append(serves, k)
 					}
 					if _, _, ok := c.writeOf(in); ok {
@@ -343,22 +416,25 @@ func checkC04(r *Run) {
 					bad(look.Pos(), "a released QoS 2 message is handed over at %d sites (want one)", len(serves))
 				} else {
 					s := serves[0]
-					if len(s.Call.Args) != 1 || c.Resolve(s.Call.Args[0]) != val {
-						bad(s.Pos(), "what is handed over on PUBREL is not the message stored under the PUBREL's identifier")
+					if c.Resolve(s.Arg) != val {
+						bad(s.Call.Pos(), "what is handed over on PUBREL is not the message stored under the PUBREL's identifier")
 					}
 					exempt := func(b *ssa.BasicBlock, k int) bool {
-						for _, e := range nilEdges(f, s.Call.Value) {
+						if s.Handler == nil {
+							return false
+						}
+						for _, e := range nilEdges(f, s.Handler) {
 							if e.B == b && e.K == k {
 								return true
 							}
 						}
 						return false
 					}
-					if pathAvoiding(func(x ssa.Instruction) bool { return x == ssa.Instruction(s) }, exempt) {
-						bad(s.Pos(), "a path releases a held QoS 2 message without handing it to the registered handler")
+					if pathAvoiding(func(x ssa.Instruction) bool { return x == ssa.Instruction(s.Call) }, exempt) {
+						bad(s.Call.Pos(), "a path releases a held QoS 2 message without handing it to the registered handler")
 					}
-					if _, again := CanReach(f, s, func(x ssa.Instruction) bool { return x == ssa.Instruction(s) }, pq); again {
-						bad(s.Pos(), "a released message can be handed over twice")
+					if _, again := CanReach(f, s.Call, func(x ssa.Instruction) bool { return x == ssa.Instruction(s.Call) }, pq); again {
+						bad(s.Call.Pos(), "a released message can be handed over twice")
 					}
 				}
 				if len(dels) == 0 {
@@ -389,8 +465,8 @@ func checkC04(r *Run) {
 				// miss edge: no hand-over
 				miss := ReachableFromBlock(f, hitEdge.B.Succs[1], pq)
 				for in := range miss {
-					if k, ok := isServeInvoke(in); ok {
-						bad(k.Pos(), "a PUBREL with an unknown identifier causes a hand-over")
+					if k, ok := c.serveEff(in); ok {
+						bad(k.Call.Pos(), "a PUBREL with an unknown identifier causes a hand-over")
 					}
 				}
 			}
@@ -401,9 +477,9 @@ func checkC04(r *Run) {
 	}
 	// hand-overs outside PUBLISH / PUBREL arms
 	eachInstr(f, func(in ssa.Instruction) {
-		if k, ok := isServeInvoke(in); ok {
+		if k, ok := c.serveEff(in); ok {
 			if !pub.Instr[in] && (rel == nil || !rel.Instr[in]) {
-				rr[1].Bad("serve/stray-hand-over", k.Pos(), "a handler is invoked outside the PUBLISH and PUBREL arms")
+				rr[1].Bad("serve/stray-hand-over", k.Call.Pos(), "a handler is invoked outside the PUBLISH and PUBREL arms")
 			}
 		}
 	})
